@@ -1235,7 +1235,7 @@ impl CallerEnv {
             Op::Release { .. } => "C05",
             Op::Suspend { .. } | Op::AwaitSuspend { .. } | Op::Resume { .. } | Op::DropResumer { .. } => "C13",
             Op::PipeIn { .. } => "C11",
-            Op::Pipe { .. } | Op::Consume { .. } | Op::ConsumeInline { .. } => "C12",
+            Op::Pipe { .. } | Op::Consume { .. } | Op::ConsumeInline { .. } | Op::SetDepth { .. } => "C12",
             Op::DropPipe { .. } => "C16",
             Op::Attempt { .. } => "C15",
             Op::OpenGate { .. } | Op::Rewake { .. } => "C06",
@@ -1682,6 +1682,17 @@ impl CallerEnv {
                         };
                         record_pipe_output(&w, s, r);
                     }
+                }
+            }
+            Op::SetDepth { slot, depth } => {
+                if let Some((s, out)) = self.pipes[*slot as usize].as_mut() {
+                    let s = *s;
+                    w.with(|i| {
+                        i.streams[s].depth = *depth as usize;
+                        i.stats.depth_changes += 1;
+                    });
+                    w.hist(|| format!("back-pressure depth of pipe s{} set to {}", s, depth));
+                    out.set_backpressure_depth(*depth as usize);
                 }
             }
             Op::AwaitInline { slot } => {
